@@ -203,7 +203,8 @@ theorem noPanic_serverExtWalk (bs : List UInt8) (s : String) : runBuf Dtls.serve
   safe_noPanic (Dtls.serverExtWalk_safe _) s
 
 /-- **dtls_reassembly_bounded**: for every history of DATAGRAMS (arbitrary bytes) handed to the handshake run loop of an
-endpoint that has no keys yet (client or server) — the record loop of `handle_incoming_packet` (decode, epoch-0
+endpoint that has no keys yet (client or server), from EVERY handshake context within the invariant (`recv_message_seq` a u16,
+reassembly buffer below 2^24 — any `message_seq`, transcript, pending fragment) — the record loop of `handle_incoming_packet` (decode, epoch-0
 application-data skip, undecryptable-record break, alert indexing, error ends the datagram) and inside it the message
 loop of `process_handshake_payload` (messages decoded by the `HandshakeMessage::decode` model): the acceptance /
 fragment-reassembly bookkeeping of `process_handshake_payload` — sequence acceptance with the post-HVR re-sync (only on a
@@ -214,11 +215,12 @@ an error) and keeps `incomplete_handshake` below 2^24 bytes. The model is compar
 datagram; handshake message types whose handler is a no-op for the endpoint's role; one session per run drives the counter to
 its end so that the error flag is compared as well). The endpoint has no keys: the clear-text-after-keys skip, protected alerts and
 every handler (crypto, certificates, flights) are outside the model. -/
-theorem dtls_reassembly_bounded (isClient : Bool) (datagrams : List (List UInt8)) (b : Buf) (n : Nat) (site : String) :
-    Dtls.datagramHistory isClient {} datagrams b n ≠ .panic site ∧
-    ∀ cs b' n', Dtls.datagramHistory isClient {} datagrams b n = .ok cs b' n' →
+theorem dtls_reassembly_bounded (isClient : Bool) (c0 : Dtls.HsCtx) (h0 : c0.recvSeq ≤ 65535 ∧ c0.incLen < 16777216)
+    (datagrams : List (List UInt8)) (b : Buf) (n : Nat) (site : String) :
+    Dtls.datagramHistory isClient c0 datagrams b n ≠ .panic site ∧
+    ∀ cs b' n', Dtls.datagramHistory isClient c0 datagrams b n = .ok cs b' n' →
       ∀ c ∈ cs, c.recvSeq ≤ 65535 ∧ c.incLen < 16777216 := by
-  have h := Dtls.datagramHistory_safe isClient datagrams {} b n (by unfold Dtls.HsCtx.Ok; decide)
+  have h := Dtls.datagramHistory_safe isClient datagrams c0 b n (by unfold Dtls.HsCtx.Ok; exact h0)
   refine ⟨safe_noPanic h site, ?_⟩
   intro cs b' n' hr
   unfold safe at h
@@ -246,7 +248,8 @@ theorem noPanic_sctpPacket (bs : List UInt8) (crcOk : Bool) (s : String) : runBu
   safe_noPanic (Sctp.handlePacket_safe crcOk _) s
 
 /-- **noPanic_sctpHistory**: every HISTORY of packets on one association (any bytes, any checksum verdicts, any set of
-issued cookies; server side from scratch or client side with its INIT outstanding) is handled without panic and
+issued cookies) from EVERY association state whose queued chunk values kept their 12-byte DATA header (the invariant the
+handlers maintain; in particular every state the compared sessions start from, whatever the role, seeded TSN, tags, T1) is handled without panic and
 every loop is left: besides the byte walkers this covers the state that decides what is walked — duplicate test,
 in-order fast path, `received_queue` insert and in-order drain of `handle_data` (queued chunk values are re-parsed by
 `process_data_payload` when drained: the proof carries the invariant that every queued value kept its 12-byte header),
@@ -254,10 +257,10 @@ the T1 gates of INIT-ACK / COOKIE-ACK, duplicate INIT, COOKIE-ECHO, FORWARD-TSN 
 request numbering, DCEP reassembly and channel creation (bounded, see below). Not in the model: `InboundStream` ordering, user-message
 reassembly content, the send side, timers, and handler errors (`?` on a failed send — cannot occur while the link is open). The model is compared with a real
 association on every run (stream `sctpassoc`: replies, created channels, cumulative TSN, queue length, peer rwnd). -/
-theorem noPanic_sctpHistory (ps : List SctpSt.Pkt) (clientSide : Bool) (b : Buf) (n : Nat) (site : String) :
-    SctpSt.runHistory (if clientSide then { t1 := 1, hasTag := true } else {}) ps b n ≠ .panic site := by
-  apply safe_noPanic (SctpSt.runHistory_safe ps _ b n _) site
-  cases clientSide <;> (intro e he; simp at he)
+theorem noPanic_sctpHistory (s0 : SctpSt.St) (h0 : ∀ e ∈ s0.queue, 12 ≤ e.2.2.size)
+    (ps : List SctpSt.Pkt) (b : Buf) (n : Nat) (site : String) :
+    SctpSt.runHistory s0 ps b n ≠ .panic site :=
+  safe_noPanic (SctpSt.runHistory_safe ps s0 b n h0) site
 
 /-- the vectors the WALKERS build from one packet (gap blocks, SSN pairs, stream lists, DCEP strings, reassembly
 append) take at most `2·|bs|` bytes. Replies the handlers generate (INIT-ACK with cookie, HEARTBEAT-ACK, …) are
